@@ -474,3 +474,87 @@ case("c14-refactor-rename-counter", "C14", "refactor", [(E14, "        current_a
                 exception,
                 failures,
                 max_attempts,""")])
+
+# ------------------------------------------------------------------ C17 / C18 / C15
+RT = H + "run_task/handler.py"
+case("c17-cancel-check-after-execute-guard-removed", "C17", "mutant", [(RT, """            if execution.is_canceled:
+                handle_cancellation(""", """            if False and execution.is_canceled:
+                handle_cancellation(""")], "C17.R")
+case("c17-cancelworkflow-flag-after-fanout", "C17", "mutant", [(H + "workflow_control.py", """            self.repository.cancel(execution.id, user, reason)
+            execution.cancel(user, reason)
+""", """            execution.cancel(user, reason)
+"""), (H + "workflow_control.py", """            logger.info(
+                "Canceling execution %s (%d stage(s)) by %s: %s",""", """            self.repository.cancel(execution.id, user, reason)
+            logger.info(
+                "Canceling execution %s (%d stage(s)) by %s: %s",""")], "C17.R2")
+case("c17-cancelstage-skips-not-started-tasks", "C17", "mutant", [(H + "cancel_stage.py", "if task.status in {WorkflowStatus.NOT_STARTED, WorkflowStatus.RUNNING}:", "if task.status in {WorkflowStatus.RUNNING}:")], "C17.R3")
+case("c17-completeworkflow-not-pushed", "C17", "mutant", [(H + "workflow_control.py", """                txn.push_message(
+                    CompleteWorkflow(
+                        execution_type=message.execution_type,
+                        execution_id=message.execution_id,
+                    )
+                )
+
+            logger.info(
+                "Canceling execution""", """                pass
+
+            logger.info(
+                "Canceling execution""")], "C17.R2")
+case("c17-canceled-checked-after-terminal-removed", "C17", "mutant", [(H + "complete_workflow.py", """        if WorkflowStatus.CANCELED in statuses:
+            return WorkflowStatus.CANCELED
+""", """        if WorkflowStatus.CANCELED in statuses and retry_count_ok:
+            return WorkflowStatus.CANCELED
+"""), (H + "complete_workflow.py", """        stages = execution.top_level_stages()
+        statuses = [s.status for s in stages]
+""", """        stages = execution.top_level_stages()
+        statuses = [s.status for s in stages]
+        retry_count_ok = bool(getattr(message, "retry_count", 0))
+""")], "C17.R5")
+case("c17-only-running-stages-cancelled", "C17", "mutant", [(H + "workflow_control.py", "to_cancel = [s for s in execution.top_level_stages() if not s.status.is_complete]", "to_cancel = [s for s in execution.top_level_stages() if s.status == WorkflowStatus.RUNNING]")], "C17.R2")
+case("c18-transient-signal-buffered", "C18", "mutant", [(H + "signal_stage.py", "            if message.persistent:", "            if message.persistent or message.signal_data:")], "C18.R1")
+case("c18-buffer-not-stored", "C18", "mutant", [(H + "signal_stage.py", """                stage.context["_buffered_signals"] = buffered
+
+                with self.repository.transaction(self.queue) as txn:
+                    txn.store_stage(stage)
+""", """                stage.context["_buffered_signals"] = buffered
+
+                with self.repository.transaction(self.queue) as txn:
+""")], "C18.R1")
+case("c18-buffer-not-written-back", "C18", "mutant", [(H + "run_task/result.py", """        stage.context["_buffered_signals"] = buffered
+        stage.context["_signal_name\"""", """        stage.context["_signal_name\"""")], "C18.R2")
+case("c18-consume-without-runtask", "C18", "mutant", [(H + "run_task/result.py", """            messages_to_push=[
+                (
+                    RunTaskMsg(
+                        execution_type=message.execution_type,
+                        execution_id=message.execution_id,
+                        stage_id=message.stage_id,
+                        task_id=task_model.id,
+                    ),
+                    None,
+                )
+            ],""", """            messages_to_push=[],""")], "C18.R2")
+case("c18-rearm-clears-mailbox", "C18", "mutant", [(H + "jump_to_stage/reset.py", """    for key in ("_join_fired", "_completed_branches", "_activated_branches"):""", """    for key in ("_join_fired", "_completed_branches", "_activated_branches", "_buffered_signals"):""")], "C18.R4")
+case("c18-resume-without-mark", "C18", "mutant", [(H + "signal_stage.py", """                    txn.store_stage(stage)
+                    if message.message_id:
+                        txn.mark_message_processed(
+                            message_id=message.message_id,
+                            handler_type="SignalStage",
+                            execution_id=message.execution_id,
+                        )
+                    if suspended_task:""", """                    txn.store_stage(stage)
+                    if suspended_task:""")], "C18.R1")
+case("c15-budget-check-skipped", "C15", "mutant", [(H + "jump_to_stage/handler.py", """            if not self._check_jump_count(message, execution, source_stage):
+                return
+""", """            self._check_jump_count(message, execution, source_stage)
+""")], "C15.R1")
+case("c15-limit-off-by-comparison", "C15", "mutant", [(H + "jump_to_stage/handler.py", "        if jump_count >= max_jumps:", "        if jump_count > max_jumps + max_jumps:")], "C15.R2")
+case("c15-count-not-incremented", "C15", "mutant", [(H + "jump_to_stage/handler.py", "            new_jump_count = jump_count + 1", "            new_jump_count = jump_count")], "C15.R2")
+case("c15-rearm-drops-counter", "C15", "mutant", [(H + "jump_to_stage/reset.py", """    for key in ("_join_fired", "_completed_branches", "_activated_branches"):""", """    for key in ("_join_fired", "_completed_branches", "_activated_branches", "_jump_count"):""")], "C15.R3")
+case("c15-fanin-any-instead-of-all", "C15", "mutant", [(H + "jump_to_stage/traversal.py", """            if has_upstream_in_scope and all_upstreams_in_scope:
+                resettable_ref_ids.add(stage.ref_id)""", """            if has_upstream_in_scope:
+                resettable_ref_ids.add(stage.ref_id)""")], "C15.R5")
+case("c15-jump-stage-by-stage", "C15", "mutant", [(H + "jump_to_stage/handler.py", """                    mutate(fresh)
+                    txn.store_stage(fresh)""", """                    mutate(fresh)
+                    self.repository.store_stage(fresh)""")], "C15.R4")
+case("c15-join-fired-not-cleared", "C15", "mutant", [(H + "jump_to_stage/reset.py", """    for key in ("_join_fired", "_completed_branches", "_activated_branches"):""", """    for key in ("_completed_branches", "_activated_branches"):""")], "C15.R6")
+case("c15-default-max-jumps", "C15", "mutant", [(H + "jump_to_stage/handler.py", "DEFAULT_MAX_JUMPS = 10", "DEFAULT_MAX_JUMPS = 10_000")], "C15.R2")
